@@ -55,7 +55,7 @@ class xcube:
         if interacting_shape is None:
             # Slow! Always pass interacting_shape if you already know extents.
             interacting_shape = tuple(int(max(d.flat)) + 1 for d in self.dims)
-        self.interacting_shape = interacting_shape
+        self.interacting_shape = tuple(int(extent) for extent in interacting_shape)
         self.shape = self.scaffold_shape + self.interacting_shape
 
         self._set_strides()
